@@ -68,7 +68,7 @@ CHECKS = {
         "epoch / start of the uninterrupted run for STEPD, drift index, cleared next update), decision tables and guards of DDM / EDDM / STEPD for every carrier "
         "incl. the executed Float model; over ordered fields DDM rate = errors/n and the stored minimum pair minimises p+s over tested positions, EDDM mean "
         "distance telescopes, STEPD counters are the correct counts inside/before the last window. Tied to the code by an exhaustive correspondence (all "
-        "2^10 / 2^13 outcome sequences x 92 boundary-seeking configurations, every decision compared) plus long multi-drift sequences.",
+        "2^10 / 2^12 outcome sequences x 92 boundary-seeking configurations, every decision compared) plus long multi-drift sequences.",
    note="Trusted: Lean kernel; models tied by the bounded correspondence; Float rounding outside the theorems; scipy.stats.norm.cdf monotone (p < alpha modelled "
         "as z > z_alpha, found by bisection on the code's own expression); window_size=0 and alpha outside [0,1] excluded.",
    technique="Lean 4 proof (snoc induction, generic trace-semantics lemmas, field algebra) + exhaustive model/implementation correspondence + declarative clauses on implementation traces",
